@@ -5,6 +5,7 @@ import (
 	"go/ast"
 	"go/token"
 	"go/types"
+	"sort"
 	"strings"
 
 	"golang.org/x/tools/go/ssa"
@@ -312,59 +313,98 @@ func aliasOfField(fd *ast.FuncDecl, id *ast.Ident, isFieldSel func(ast.Expr) boo
 }
 
 // R-VARIANT/select: the encoder's choice of header variant is a function of (kind, value presence, hashed flag).
+// Decided by executing encodeHeader abstractly for the 8 combinations (if/else, switch and boolean temporaries are all
+// the same to the exploration); the variant chosen is the variant global loaded on the executed path.
 func (c *Ctx) ruleVariantSelect() {
 	f := c.fn("pkg/trie/node", "encodeHeader")
 	if f == nil {
 		return
 	}
-	c.doc("R-VARIANT/select", "encodeHeader: the branch-without-value variant is chosen exactly under StorageValue == nil, the two branch-with-value variants only under StorageValue != nil, hashed variants only under the hashed flag, leaf variants only under Kind()==Leaf: a stale hashed flag on a value-less branch must not change the encoding")
+	c.doc("R-VARIANT/select", "encodeHeader, executed abstractly for every combination of (leaf?, StorageValue nil?, hashed flag): leaf -> leaf / leafWithHashedValue by the flag; branch with nil value -> branchVariant whatever the flag (a stale hashed flag on a value-less branch must not change the encoding); branch with a value -> branchWithValue / branchWithHashedValue by the flag")
 	hashed := ssa.Value(f.Params[1])
-	eachInstr(f, func(b *ssa.BasicBlock, _ int, in ssa.Instruction) {
-		u, ok := in.(*ssa.UnOp)
-		if !ok || u.Op != token.MUL {
-			return
-		}
-		g, ok := u.X.(*ssa.Global)
-		if !ok {
-			return
-		}
-		if _, isVar := variantSpec[g.Name()]; !isVar {
-			return
-		}
-		var valNil, valNonNil, isHashed, notHashed bool
-		for _, fc := range factsAt(b) {
-			if fc.cond == hashed {
-				if fc.truth {
-					isHashed = true
-				} else {
-					notHashed = true
+	for _, leaf := range []bool{true, false} {
+		for _, valNil := range []bool{true, false} {
+			for _, h := range []bool{true, false} {
+				want := ""
+				switch {
+				case leaf && h:
+					want = "leafWithHashedValueVariant"
+				case leaf:
+					want = "leafVariant"
+				case valNil:
+					want = "branchVariant"
+				case h:
+					want = "branchWithHashedValueVariant"
+				default:
+					want = "branchWithValueVariant"
 				}
-			}
-			if e, neq, isN := nilCmp(fc.cond); isN {
-				if _, fv, ok := fieldLoad(e); ok && fv != nil && fv.Name() == "StorageValue" {
-					if fc.truth == neq {
-						valNonNil = true
-					} else {
-						valNil = true
+				if leaf && valNil {
+					continue // a leaf always carries a value
+				}
+				env := &cmpEnv{extern: func(v ssa.Value) (any, bool) {
+					if v == hashed {
+						return h, true
+					}
+					if bo, ok := v.(*ssa.BinOp); ok && (bo.Op == token.EQL || bo.Op == token.NEQ) {
+						if e, neq, isN := nilCmp(v); isN {
+							if _, fv, ok := fieldLoad(e); ok && fv != nil && fv.Name() == "StorageValue" {
+								return valNil != neq, true
+							}
+						}
+						isKind := func(x ssa.Value) bool {
+							cl, ok := x.(*ssa.Call)
+							return ok && cl.Call.StaticCallee() != nil && cl.Call.StaticCallee().Name() == "Kind"
+						}
+						kindConst := func(x ssa.Value) (bool, bool) { // is the constant `Leaf`?
+							k, ok := x.(*ssa.Const)
+							if !ok || !strings.HasSuffix(k.Type().String(), "node.Kind") {
+								return false, false
+							}
+							n, _ := constInt(k)
+							return n == leafKindValue(f), true
+						}
+						for _, pr := range [][2]ssa.Value{{bo.X, bo.Y}, {bo.Y, bo.X}} {
+							if isKind(pr[0]) {
+								if isLeafConst, ok := kindConst(pr[1]); ok {
+									eq := leaf == isLeafConst
+									return eq == (bo.Op == token.EQL), true
+								}
+							}
+						}
+					}
+					return nil, false
+				}}
+				vis := explore(f, env)
+				chosen := map[string]bool{}
+				for in := range vis {
+					if u, ok := in.(*ssa.UnOp); ok && u.Op == token.MUL {
+						if g, ok := u.X.(*ssa.Global); ok {
+							if _, isVar := variantSpec[g.Name()]; isVar {
+								chosen[g.Name()] = true
+							}
+						}
 					}
 				}
+				var list []string
+				for k := range chosen {
+					list = append(list, k)
+				}
+				sort.Strings(list)
+				c.ob("R-VARIANT/select", fmt.Sprintf("encodeHeader:leaf=%v,valueNil=%v,hashed=%v", leaf, valNil, h), f.Pos(), len(list) == 1 && list[0] == want,
+					fmt.Sprintf("variant selected %v, specification %s", list, want))
 			}
 		}
-		ok2, want := true, ""
-		switch g.Name() {
-		case "branchVariant":
-			ok2, want = valNil, "StorageValue == nil"
-		case "branchWithValueVariant":
-			ok2, want = valNonNil && notHashed, "StorageValue != nil && !hashed"
-		case "branchWithHashedValueVariant":
-			ok2, want = valNonNil && isHashed, "StorageValue != nil && hashed"
-		case "leafWithHashedValueVariant":
-			ok2, want = isHashed, "hashed"
-		case "leafVariant":
-			ok2, want = notHashed, "!hashed"
+	}
+}
+
+// leafKindValue: the constant value of node.Leaf in the package of f.
+func leafKindValue(f *ssa.Function) int64 {
+	if m, ok := f.Pkg.Members["Leaf"].(*ssa.NamedConst); ok {
+		if k, ok := constInt(m.Value); ok {
+			return k
 		}
-		c.ob("R-VARIANT/select", "encodeHeader:"+g.Name(), u.Pos(), ok2, fmt.Sprintf("%s must be selected only on paths where %s is established (found nil=%v nonnil=%v hashed=%v nothashed=%v)", g.Name(), want, valNil, valNonNil, isHashed, notHashed))
-	})
+	}
+	return 0
 }
 
 // R-EPOCHARG: the verifier checks VRF proofs for the block's OWN epoch.
@@ -601,5 +641,341 @@ func (c *Ctx) ruleFullScan(rule string, f *ssa.Function, elemSubstr, why string)
 	}
 	if n == 0 {
 		c.ob(rule, relName(f.String())+":scan", f.Pos(), false, "no loop over a list of "+elemSubstr+" found (anchor changed)")
+	}
+}
+
+// R-CHANGEPRUNE: which pending scheduled changes survive a finalisation that applies none of them.
+func (c *Ctx) ruleChangePrune() {
+	const dir = "dot/state"
+	f := c.fn(dir, "(*changeTree).pruneChanges")
+	if f == nil {
+		return
+	}
+	c.doc("R-CHANGEPRUNE", "changeTree.pruneChanges keeps a root exactly when its announcing block is on the finalised block's chain — a descendant of it (isDescendantOf(finalised, root)) OR an ancestor of it whose change is not yet effective (isDescendantOf(root, finalised)); decided by executing the loop body abstractly for the four outcomes of the two ancestry queries (Substrate: ForkTree::finalize_with_descendent_if retains both kinds)")
+	hash, pred := ssa.Value(f.Params[1]), ssa.Value(f.Params[2])
+	fromRoot := func(v ssa.Value) bool {
+		for x := range backwardSlice(v, nil) {
+			if call, ok := x.(*ssa.Call); ok && call.Call.StaticCallee() != nil && call.Call.StaticCallee().Name() == "Hash" {
+				return true
+			}
+		}
+		return false
+	}
+	var desc, anc []*ssa.Call // isDescendantOf(finalised, root) / isDescendantOf(root, finalised)
+	var keep []ssa.Instruction
+	eachInstr(f, func(_ *ssa.BasicBlock, _ int, in ssa.Instruction) {
+		call, ok := in.(*ssa.Call)
+		if !ok {
+			return
+		}
+		if call.Call.Value == pred && len(call.Call.Args) == 2 {
+			switch {
+			case call.Call.Args[0] == hash && fromRoot(call.Call.Args[1]):
+				desc = append(desc, call)
+			case call.Call.Args[1] == hash && fromRoot(call.Call.Args[0]):
+				anc = append(anc, call)
+			}
+		}
+		if b, ok := call.Call.Value.(*ssa.Builtin); ok && b.Name() == "append" && strings.Contains(call.Type().String(), "pendingChangeNode") {
+			keep = append(keep, in)
+		}
+	})
+	c.ob("R-CHANGEPRUNE", "pruneChanges:asks-descendant-of-finalised", f.Pos(), len(desc) > 0, "roots announced after the finalised block on its chain are recognised by isDescendantOf(finalised, root)")
+	c.ob("R-CHANGEPRUNE", "pruneChanges:asks-ancestor-of-finalised", f.Pos(), len(anc) > 0,
+		"a root announced by an ANCESTOR of the finalised block whose effective number is still ahead is never tested for (no isDescendantOf(root, finalised)): it is dropped and the change never takes effect (e.g. announced at #6 with delay 3, finalise #7, then #9)")
+	if len(keep) == 0 {
+		c.ob("R-CHANGEPRUNE", "pruneChanges:keep", f.Pos(), false, "no append of a kept root found (anchor changed)")
+		return
+	}
+	if len(desc) == 0 || len(anc) == 0 {
+		return
+	}
+	in := func(list []*ssa.Call, v ssa.Value) bool {
+		for _, x := range list {
+			if ssa.Value(x) == v {
+				return true
+			}
+		}
+		return false
+	}
+	for _, tc := range []struct{ d, a bool }{{true, true}, {true, false}, {false, true}, {false, false}} {
+		env := &cmpEnv{extern: func(v ssa.Value) (any, bool) {
+			if ex, ok := v.(*ssa.Extract); ok && ex.Index == 0 {
+				if in(desc, ex.Tuple) {
+					return tc.d, true
+				}
+				if in(anc, ex.Tuple) {
+					return tc.a, true
+				}
+			}
+			if e, neq, ok := nilCmp(v); ok {
+				for _, pi := range phiInputs(e) {
+					if ex, ok := pi.(*ssa.Extract); ok && ex.Index == 1 && (in(desc, ex.Tuple) || in(anc, ex.Tuple)) {
+						return !neq, true // err == nil is true, err != nil is false
+					}
+				}
+			}
+			return nil, false
+		}}
+		vis := explore(f, env)
+		kept := false
+		for _, k := range keep {
+			if vis[k] {
+				kept = true
+			}
+		}
+		want := tc.d || tc.a
+		c.ob("R-CHANGEPRUNE", fmt.Sprintf("pruneChanges:descendant=%v,ancestor=%v", tc.d, tc.a), keep[0].Pos(), kept == want,
+			fmt.Sprintf("root kept=%v, expected %v (a root is kept iff it is on the finalised block's chain)", kept, want))
+	}
+}
+
+// R-UNFINALIZED: the "an earlier change was skipped" refusal compares the child's ANNOUNCING number.
+func (c *Ctx) ruleUnfinalizedAncestor() {
+	const dir = "dot/state"
+	f := c.fn(dir, "(*changeTree).findApplicableChange")
+	if f == nil {
+		return
+	}
+	c.doc("R-UNFINALIZED", "findApplicableChange: errUnfinalizedAncestor is returned exactly under `child.announcingHeader.Number <= finalised number && child announced by an ancestor-or-self of the finalised block` (Substrate compares the node's own number, not its effective number): the compared value is the announcingHeader.Number field of a child node, the other operand the finalised-number parameter")
+	n := 0
+	for _, g := range withAnon(f) {
+		for _, r := range returnsOf(g) {
+			if len(r.Results) < 2 {
+				continue
+			}
+			isSentinel := false
+			for v := range backwardSlice(resultOf(r, 1), nil) {
+				if u, ok := v.(*ssa.UnOp); ok {
+					if gl, ok := u.X.(*ssa.Global); ok && gl.Name() == "errUnfinalizedAncestor" {
+						isSentinel = true
+					}
+				}
+			}
+			if !isSentinel {
+				continue
+			}
+			n++
+			okNum := false
+			for _, fc := range factsAt(r.Block()) {
+				bo, isBin := fc.cond.(*ssa.BinOp)
+				if !isBin || !isCmp(bo.Op) || bo.Op == token.EQL || bo.Op == token.NEQ {
+					continue
+				}
+				op := bo.Op
+				if !fc.truth {
+					op = negOp(op)
+				}
+				isAnnNum := func(v ssa.Value) bool {
+					_, fv, ok := fieldLoad(stripConv(v))
+					if !ok || fv == nil || fv.Name() != "Number" {
+						return false
+					}
+					for x := range backwardSlice(v, nil) {
+						if _, fv2, ok := fieldLoad(x); ok && fv2 != nil && fv2.Name() == "announcingHeader" {
+							return true
+						}
+						if fa, ok := x.(*ssa.FieldAddr); ok && fieldVar(fa) != nil && fieldVar(fa).Name() == "announcingHeader" {
+							return true
+						}
+					}
+					return false
+				}
+				isParam := func(v ssa.Value) bool {
+					for _, pi := range phiInputs(stripConv(v)) {
+						if fvv, ok := pi.(*ssa.FreeVar); ok && fvv.Type().String() == "uint" {
+							return true
+						}
+						if u, ok := pi.(*ssa.UnOp); ok {
+							if _, ok := u.X.(*ssa.FreeVar); ok && u.Type().String() == "uint" {
+								return true
+							}
+						}
+						if p, ok := pi.(*ssa.Parameter); ok && p.Type().String() == "uint" {
+							return true
+						}
+					}
+					return false
+				}
+				if isAnnNum(bo.X) && isParam(bo.Y) && op == token.LEQ {
+					okNum = true
+				}
+				if isParam(bo.X) && isAnnNum(bo.Y) && op == token.GEQ {
+					okNum = true
+				}
+			}
+			c.ob("R-UNFINALIZED", fmt.Sprintf("findApplicableChange:refusal#%d", n), r.Pos(), okNum,
+				"the refusal must be taken when the child's announcing block number is <= the finalised number; comparing another quantity (e.g. the effective number) lets a later finalisation silently apply the parent change and re-root the tree while a skipped child announcement is pending")
+		}
+	}
+	if n == 0 {
+		c.ob("R-UNFINALIZED", "findApplicableChange:refusal", f.Pos(), false, "no return of errUnfinalizedAncestor found (anchor changed)")
+	}
+}
+
+// R-VERIFIED/distinct: an authority is an equivocator only through two DIFFERENT verified precommits.
+func (c *Ctx) ruleDistinctVotes() {
+	f := c.fn(gDir, "verifyCommitMessageJustification")
+	if f == nil {
+		return
+	}
+	c.doc("R-VERIFIED/distinct", "verifyCommitMessageJustification: every `> 1` / `>= 2` test on a per-authority tally is on the size of a set keyed by the vote (len of a map[Vote]…): the same precommit listed twice is not an equivocation")
+	n := 0
+	eachInstr(f, func(_ *ssa.BasicBlock, _ int, in ssa.Instruction) {
+		bo, ok := in.(*ssa.BinOp)
+		if !ok || !isCmp(bo.Op) {
+			return
+		}
+		k, isC := constInt(bo.Y)
+		if !isC || !((bo.Op == token.GTR && k == 1) || (bo.Op == token.GEQ && k == 2)) {
+			return
+		}
+		fromTally := false
+		for v := range backwardSlice(bo.X, nil) {
+			if fa, ok := v.(*ssa.FieldAddr); ok && strings.Contains(fa.X.Type().String(), "authorityTally") {
+				fromTally = true
+			}
+		}
+		if !fromTally {
+			return
+		}
+		n++
+		ok2 := false
+		if l, isLen := lenOf(stripConv(bo.X)); isLen {
+			if m, isMap := l.Type().Underlying().(*types.Map); isMap && strings.HasSuffix(m.Key().String(), "Vote") {
+				ok2 = true
+			}
+		}
+		c.ob("R-VERIFIED/distinct", fmt.Sprintf("verifyCommitMessageJustification:equivocator-test#%d", n), bo.Pos(), ok2,
+			"the equivocator test counts entries instead of distinct votes: a commit listing one valid precommit twice turns its signer into an equivocator who supports every block")
+	})
+	if n == 0 {
+		c.ob("R-VERIFIED/distinct", "verifyCommitMessageJustification:equivocator-test", f.Pos(), false, "no `> 1` test on the per-authority tally found (anchor changed)")
+	}
+}
+
+// reachesAvoidingInstr: some path leads from instruction a to instruction b without executing `avoid`.
+func reachesAvoidingInstr(a, b, avoid ssa.Instruction) bool {
+	idx := func(in ssa.Instruction) int {
+		for i, x := range in.Block().Instrs {
+			if x == in {
+				return i
+			}
+		}
+		return -1
+	}
+	ba, bb, bv := a.Block(), b.Block(), avoid.Block()
+	ia, ib, iv := idx(a), idx(b), idx(avoid)
+	if ba == bb && ib > ia && !(bv == ba && iv > ia && iv < ib) {
+		return true
+	}
+	if bv == ba && iv > ia {
+		return false // avoid follows a in its own block
+	}
+	seen := map[int]bool{}
+	stack := append([]*ssa.BasicBlock{}, ba.Succs...)
+	for len(stack) > 0 {
+		x := stack[len(stack)-1]
+		stack = stack[:len(stack)-1]
+		if seen[x.Index] {
+			continue
+		}
+		seen[x.Index] = true
+		if x == bb {
+			if !(bv == bb && iv < ib) {
+				return true
+			}
+			continue
+		}
+		if x == bv {
+			continue
+		}
+		stack = append(stack, x.Succs...)
+	}
+	return false
+}
+
+// R-RECOMPUTE: every change of a round's vote state is followed by the recomputation of the derived state.
+func (c *Ctx) ruleRoundRecompute() {
+	sp := c.ssaPkg(fgDir)
+	if sp == nil {
+		return
+	}
+	c.doc("R-RECOMPUTE", "Round.importPrevote / importPrecommit: after every change of the vote state (VoteGraph.Insert of a new vote, context.Equivocated marking an equivocator — whose weight then counts for every block) every path to the successful return passes the prevote-GHOST recomputation (importPrevote) and Round.update(): the memoised GHOST / estimate / finalized / completable must be recomputed for equivocations as well as for new votes")
+	for _, f := range allFuncs(c, sp) {
+		if f.Parent() != nil || (f.Name() != "importPrevote" && f.Name() != "importPrecommit") || f.Signature.Recv() == nil || !strings.Contains(f.Signature.Recv().Type().String(), "Round[") {
+			continue
+		}
+		var triggers, updates, ghosts []ssa.Instruction
+		trigName := map[ssa.Instruction]string{}
+		eachInstr(f, func(_ *ssa.BasicBlock, _ int, in ssa.Instruction) {
+			call, ok := in.(*ssa.Call)
+			if !ok {
+				return
+			}
+			nm := ""
+			if cal := call.Call.StaticCallee(); cal != nil {
+				nm = cal.Name()
+			} else if call.Call.IsInvoke() {
+				nm = call.Call.Method.Name()
+			}
+			if i := strings.Index(nm, "["); i > 0 {
+				nm = nm[:i] // instantiations of generic methods carry their type arguments in the name
+			}
+			switch nm {
+			case "Insert", "Equivocated":
+				triggers = append(triggers, in)
+				trigName[in] = nm
+			case "update":
+				updates = append(updates, in)
+			case "FindGHOST":
+				ghosts = append(ghosts, in)
+			}
+		})
+		// the weight test guarding FindGHOST stands for the recomputation (it is skipped below the threshold by design)
+		var ghostGate []ssa.Instruction
+		for _, g := range ghosts {
+			for _, gd := range guardsOf(g.Block()) {
+				if in, ok := gd.cond.(ssa.Instruction); ok {
+					for v := range backwardSlice(gd.cond, nil) {
+						if _, fv, ok := fieldLoad(v); ok && fv != nil && fv.Name() == "currentWeight" {
+							ghostGate = append(ghostGate, in)
+						}
+					}
+				}
+			}
+		}
+		n := 0
+		for _, tr := range triggers {
+			for _, r := range returnsOf(f) {
+				if len(r.Results) < 2 || !isNilConst(resultOf(r, 1)) {
+					continue
+				}
+				if !instrReaches(tr, r) {
+					continue
+				}
+				n++
+				what := trigName[tr]
+				okU := len(updates) > 0
+				for _, u := range updates {
+					if reachesAvoidingInstr(tr, r, u) {
+						okU = false
+					}
+				}
+				c.ob("R-RECOMPUTE", fmt.Sprintf("%s:%s->update#%d", f.Name(), what, n), tr.Pos(), okU, "a path from this state change to the successful return skips Round.update(): estimate/finalized/completable stay stale")
+				if f.Name() == "importPrevote" {
+					okG := len(ghostGate) > 0
+					for _, g := range ghostGate {
+						if reachesAvoidingInstr(tr, r, g) {
+							okG = false
+						}
+					}
+					c.ob("R-RECOMPUTE", fmt.Sprintf("%s:%s->prevote-ghost#%d", f.Name(), what, n), tr.Pos(), okG, "a path from this state change to the successful return skips the prevote-GHOST recomputation: after an equivocation (the equivocator now counts for every block) or a new vote the memoised GHOST is stale and update() derives the estimate from it")
+				}
+			}
+		}
+		if n == 0 {
+			c.ob("R-RECOMPUTE", f.Name()+":triggers", f.Pos(), false, "no state change reaching a successful return found (anchor changed)")
+		}
 	}
 }
